@@ -16,7 +16,7 @@ from ..digest import Trace, digest
 PROP = 'C11'
 ENGINE = 'etsim+iosim'
 HASH_CLASSES = 3
-RUNS = {'quick': 1200, 'thorough': 40000}
+RUNS = {'quick': 2400, 'thorough': 40000}
 RUN_TIMEOUT = 60
 DETERMINISM_RUNS = 12
 RULE = ("Each run = one seeded simulated ET run (1-4 restarts with "
